@@ -18,7 +18,8 @@ package main
 //	tasks    the same plus an import and a removal running in the worker
 //	rmfail   a removal whose final database commit fails (storage fault) while API calls read the
 //	         keystore tables
-//	addrs    address issuance beside fee estimation
+//	addrs    address issuance beside fee estimation and beside the script-hash lookups that run outside any
+//	         wallet-db write transaction (API IsAddressInCurrent / GetTxHistory(addr))
 //	stop     API calls and queued blocks while Stop runs
 
 import (
@@ -418,6 +419,31 @@ func raceChild(scn string, seed int64) {
 				}
 			}()
 		}
+		// script-hash lookups in the keystore's address table by API calls that take neither WalletManager.mu nor a
+		// write transaction, while addresses are issued up to the gap limit (seeded/C17-5: both sides under a READ lock)
+		a1 := e.addrs["A1"].stdEnc
+		for k := 0; k < 2; k++ {
+			wg.Add(1)
+			go func() {
+				defer wg.Done()
+				defer func() { recover() }()
+				for i := 0; i < 300; i++ {
+					wm.IsAddressInCurrent(a1)
+					if i%8 == 0 {
+						wm.GetTxHistory(1, a1)
+					}
+				}
+			}()
+		}
+		wg.Add(1)
+		go func() {
+			defer wg.Done()
+			defer func() { recover() }()
+			for i := 0; i < 24; i++ {
+				wm.NewAddress(massutil.AddressClassWitnessV0)
+				time.Sleep(200 * time.Microsecond)
+			}
+		}()
 	case "tasks":
 		wg.Add(1)
 		go func() {
